@@ -182,10 +182,12 @@ def rand_universe(rng, o=None, uid=0):
                     style = 'wrapped'
                 else:
                     args = [['arg', {'ref': rng.choice(cands)}]]
-            if style != 'bare':
+            if style == 'empty':
+                args = []            # _body_style='bare' without arguments and return values is spyne's "empty" body style
+            elif style != 'bare':
                 args = [['p%d' % k, rand_tspec(rng, o, types, o.max_depth)] for k in range(rng.randint(0, 4))]
             nret = rng.choice((0, 1, 1, 1, 2, 3)) if (o.multi_return and style == 'wrapped') else rng.choice((1, 1, 1, 0) if style == 'wrapped' else (1,))
-            rets = [rand_tspec(rng, o, types, o.max_depth) for _ in range(nret)]
+            rets = [rand_tspec(rng, o, types, o.max_depth) for _ in range(nret)] if style != 'empty' else []
             if style in ('bare', 'out_bare'):
                 # a bare response element is the return type itself
                 rets = [_strip_occ(rets[0])] if rets else []
@@ -317,7 +319,7 @@ class Built(object):
         elif len(rets) > 1:
             kw['_returns'] = [self.spyne_type(r) for r in rets]
         if md['style'] != 'wrapped':
-            kw['_body_style'] = md['style']
+            kw['_body_style'] = 'bare' if md['style'] == 'empty' else md['style']
         for k in ('_operation_name', '_in_message_name', '_out_variable_names'):
             if md.get(k[1:]) is not None:
                 kw[k] = md[k[1:]]
